@@ -92,6 +92,11 @@ CLAIMED = {
  "C13": ("Theorems Rx.ConnM.* (C13.lean) on the mirrored state machines of publish / ref_count / replay over SubjM, hot and cold-synchronous sources, ALL "
          "call sequences: publish_connects_only_on_connect, same_items_for_present, ref_count_first_last, at_most_one_source_subscription, "
          "replay_complete_history, replay_arrival, disconnect_stops_source. Convention proved: ref_count/replay connect once ever (never reconnect). "
+         "REFINEMENT (C13Ref*.lean, 21 files): over a hot source the object machine's publish / ref_count / replay (publishConnect, refCountHooks with the "
+         "connecting / cancelled flags, the replay hand-over) refine ConnM for every well-numbered call sequence (publish_refines, refCount_refines, "
+         "replayConn_refines: logs, number of source subscriptions, source liveness, registrations), and the C13 theorems are transported to the machine "
+         "(machine_publish_connects_only_on_connect, machine_ref_count_first_last, machine_replay_complete_history, …); the cold synchronous source is not "
+         "proved (differential check only). "
          "Tie: implementation = object machine on all cases; implementation = ConnM (logs, source subscription count, registrations) on directly subscribed ones.",
          "§5 C13", "Lean 4 proof: induction over call sequences of mirrored state machines + per-run differential correspondence"),
  "C15": ("partial: Theorems Rx.Timed.* (C15.lean) in virtual time: interval_exits_within_one_period (+ liveness), timer_exits, debounce_exits, "
